@@ -12,7 +12,7 @@ import sys
 from concurrent.futures import ProcessPoolExecutor
 
 sys.path.insert(0, "/verif")
-RFDIR = "/verif/seeded/refactors"
+RFDIR = os.environ.get("RFDIR", "/verif/seeded/refactors")
 TREES = "/tmp/rft"
 
 
